@@ -116,6 +116,10 @@ func vModifiesMems(patterns ...string) {}
 // vAtEntry (loop invariants only): the value x had when the loop was entered.
 func vAtEntry(x int) int { return x }
 
+// vKeptOrNew (loop invariants only): s still has the backing array, offset and
+// capacity it had when the loop was entered, or a backing array allocated since.
+func vKeptOrNew(s []byte) bool { return true }
+
 // vFuel sets how many times recursive spec functions are unfolded in this harness (default 1).
 func vFuel(n int) {}
 
